@@ -4,15 +4,170 @@
   Model: `Hs.Zinc.fromBytes` (whole value) and `Hs.Zinc.rowNext` (lazy row iterator) over the
   concrete scanner model.  Outcomes `panic` / `diverge` (fuel `fuelFor n = 8n+64` ran out) / `depth`
   are what the property forbids.
+
+  Proof structure (helper lemmas in `Hs/Lemmas/ZincTotal*.lean`):
+  * `Scan.mu s` = stash + unread input + 1 while `eof` is false.  Every scanner primitive and every
+    scalar reader is non-increasing in `mu` and needs fuel `> mu` (`…_spec` lemmas, predicate `Res.Sat`);
+    `parseNumberDateTime`'s reset `eof := false` merely restores the value `mu` had on entry.
+  * a `lexRead` away from the end of the input strictly decreases `mu`; `Tok.none` only comes with `eof`.
+  * parser: `PS.M p = mu + [tok ≠ none]`; `RowState.K r = M + [¬ eof]`.  By mutual induction on the fuel
+    every function of the parser's `mutual` block needs fuel at most `8 * measure + c`, `c ≤ 43`
+    (`Zinc.Specs`, `Zinc.specsAll`), so `fuelFor` suffices.
 -/
 import Hs.Model.ZincParse
+import Hs.Lemmas.ZincTotalGood
+import Hs.Lemmas.ZincTotalRows
 namespace Hs.C03
-open Hs Hs.Zinc
+open Hs Hs.Zinc Hs.Scan
+
+/-! ## Statements -/
 
 /-- The property at full strength (Zinc, whole value): for every byte string the decoder's
 outcome is a value or an error. -/
 def C03_zinc : Prop :=
   ∀ bs : List UInt8, fromBytes bs ≠ .panic ∧ fromBytes bs ≠ .diverge ∧ fromBytes bs ≠ .depth
+
+/-- The property for the lazy row iterator (`parse_grid_iterator` + `RowIterator::next`): whenever the
+header parses, no call of `next()` panics, hangs or overflows, and the iterator is finished (`None`, or an
+`Err` item) after at most `bs.length + 1` successful rows.  `rowsStart` / `nextN` are spelled out by
+`rowsStart_def` / `nextN_zero` / `nextN_succ` below. -/
+def C03_rows : Prop :=
+  ∀ bs : List UInt8,
+    rowsStart bs ≠ .panic ∧ rowsStart bs ≠ .diverge ∧ rowsStart bs ≠ .depth ∧
+    ∀ hdr r0, rowsStart bs = .ok (hdr, r0) →
+      let cols := hdr.2.1.map (·.1)
+      (∀ k, nextN (fuelFor bs.length) cols k r0 ≠ .panic ∧ nextN (fuelFor bs.length) cols k r0 ≠ .diverge ∧
+            nextN (fuelFor bs.length) cols k r0 ≠ .depth) ∧
+      (∀ k, bs.length + 1 ≤ k → ∀ row r, nextN (fuelFor bs.length) cols k r0 ≠ .ok (some row, r))
+
+/-! ## 1. No function of the model ever yields `panic` or `depth` -/
+
+theorem never_panic (bs : List UInt8) : fromBytes bs ≠ .panic := (fromBytes_spec bs).ne_panic
+theorem never_depth (bs : List UInt8) : fromBytes bs ≠ .depth := (fromBytes_spec bs).ne_depth
+
+theorem lexRead_never_panic (fuel : Nat) (s : Scan) : lexRead fuel s ≠ .panic := (lexRead_spec fuel s).ne_panic
+theorem lexRead_never_depth (fuel : Nat) (s : Scan) : lexRead fuel s ≠ .depth := (lexRead_spec fuel s).ne_depth
+
+/-- for any fuel, depth and state — not only the ones `fromBytes` reaches -/
+theorem parseValue_never_panic (fuel d : Nat) (p : PS) : parseValue fuel d p ≠ .panic :=
+  ((goodAll fuel).parseValue d p).ne_panic
+theorem parseValue_never_depth (fuel d : Nat) (p : PS) : parseValue fuel d p ≠ .depth :=
+  ((goodAll fuel).parseValue d p).ne_depth
+theorem gridHeader_never_panic (fuel d : Nat) (p : PS) : gridHeader fuel d p ≠ .panic :=
+  ((goodAll fuel).gridHeader d p).ne_panic
+theorem gridHeader_never_depth (fuel d : Nat) (p : PS) : gridHeader fuel d p ≠ .depth :=
+  ((goodAll fuel).gridHeader d p).ne_depth
+theorem rowNext_never_panic (fuel d : Nat) (r : RowState) (cols : List (List Char)) :
+    rowNext fuel d r cols ≠ .panic := ((goodAll fuel).rowNext d r cols).ne_panic
+theorem rowNext_never_depth (fuel d : Nat) (r : RowState) (cols : List (List Char)) :
+    rowNext fuel d r cols ≠ .depth := ((goodAll fuel).rowNext d r cols).ne_depth
+
+/-! ## 2. Scanner and lexer loops terminate -/
+
+private theorem total_of {α} {r : Res α} {fuel : Nat} {s : Scan} {Q : α → Prop}
+    (h : r.Sat fuel s.mu Q) (hf : s.remaining + 2 ≤ fuel) : r ≠ .diverge :=
+  h.ne_diverge (Nat.lt_of_lt_of_le (Nat.lt_succ_of_le (mu_le_remaining s)) hf)
+
+theorem consumeSpaces_total {fuel s} (h : s.remaining + 2 ≤ fuel) : consumeSpaces fuel s ≠ .diverge :=
+  total_of (consumeSpaces_spec fuel s) h
+theorem consumeWhiteSpaces_total {fuel s} (h : s.remaining + 2 ≤ fuel) : consumeWhiteSpaces fuel s ≠ .diverge :=
+  total_of (consumeWhiteSpaces_spec fuel s) h
+theorem literalLoop_total {fuel s acc} (h : s.remaining + 2 ≤ fuel) : literalLoop fuel s acc ≠ .diverge :=
+  total_of (literalLoop_spec fuel s acc) h
+theorem strLoop_total {fuel s acc} (h : s.remaining + 2 ≤ fuel) : strLoop fuel s acc ≠ .diverge :=
+  total_of (strLoop_spec fuel s acc) h
+theorem uriLoop_total {fuel s acc} (h : s.remaining + 2 ≤ fuel) : uriLoop fuel s acc ≠ .diverge :=
+  total_of (uriLoop_spec fuel s acc) h
+theorem refLoop_total {fuel s acc} (h : s.remaining + 2 ≤ fuel) : refLoop fuel s acc ≠ .diverge :=
+  total_of (refLoop_spec fuel s acc) h
+theorem decimalLoop_total {fuel s acc} (h : s.remaining + 2 ≤ fuel) : decimalLoop fuel s acc ≠ .diverge :=
+  total_of (decimalLoop_spec fuel s acc) h
+theorem unitLoop_total {fuel s acc} (h : s.remaining + 2 ≤ fuel) : unitLoop fuel s acc ≠ .diverge :=
+  total_of (unitLoop_spec fuel s acc) h
+theorem fracLoop_total {fuel s acc} (h : s.remaining + 2 ≤ fuel) : fracLoop fuel s acc ≠ .diverge :=
+  total_of (fracLoop_spec fuel s acc) h
+theorem tzNameLoop_total {fuel s acc} (h : s.remaining + 2 ≤ fuel) : tzNameLoop fuel s acc ≠ .diverge :=
+  total_of (tzNameLoop_spec fuel s acc) h
+
+/-- the hypothesis is satisfiable by a non-trivial scanner state: three bytes left, fuel 5 -/
+example : (Scan.make [32, 32, 120, 121]).remaining + 2 ≤ 5 := by decide
+
+/-- `Lexer::read` terminates -/
+theorem lexRead_total {fuel s} (h : s.remaining + 3 ≤ fuel) : lexRead fuel s ≠ .diverge :=
+  (lexRead_spec fuel s).ne_diverge (by have := mu_le_remaining s; omega)
+
+example : (Scan.make [34, 120, 34, 44]).remaining + 3 ≤ fuelFor 4 := by decide
+
+/-- What a successful `read` consumes, in terms of `mu` (= unconsumed bytes, the current one included
+while `eof` is false): never an increase; a strict decrease unless the scanner already was at the end of
+the input, in which case the token is `none` and the scanner is unchanged; and `none` is only ever
+returned together with `eof`. -/
+theorem lexRead_progress {fuel s l} (h : lexRead fuel s = .ok l) :
+    l.sc.mu ≤ s.mu ∧ (s.eof = false → l.sc.mu < s.mu) ∧
+    (s.eof = true → l.sc = s ∧ PS.tokNone l = true) ∧ (PS.tokNone l = true → l.sc.eof = true) := by
+  refine ⟨(lexRead_spec fuel s).post h, fun he => (lexRead_strict fuel s he).post h, ?_, ?_⟩
+  · intro he
+    cases fuel with
+    | zero => rw [lexRead] at h; cases h
+    | succ n => rw [lexRead_at_eof n s he] at h; cases h; exact ⟨rfl, rfl⟩
+  · intro ht
+    apply (lexRead_tokNone fuel s).post h
+    unfold PS.tokNone at ht
+    split at ht
+    · assumption
+    · cases ht
+
+/-! ## 3. The decoder is total -/
+
+theorem never_diverge (bs : List UInt8) : fromBytes bs ≠ .diverge :=
+  (fromBytes_spec bs).ne_diverge (Nat.lt_succ_self 0)
+
+/-- **C03 (Zinc, whole value), in full.** -/
+theorem C03_zinc_holds : C03_zinc :=
+  fun bs => ⟨never_panic bs, never_diverge bs, never_depth bs⟩
+
+/-- fuel sufficiency of the parser for *any* parser state, not only the initial one: `8 * M + 41` units
+are enough, where `M` counts the unconsumed bytes and the pending token -/
+theorem parseValue_total {fuel d : Nat} {p : PS} (h : 8 * p.M + 41 ≤ fuel) : parseValue fuel d p ≠ .diverge :=
+  (parseValue_spec fuel d p).ne_diverge h
+
+example : 8 * (PS.M { sc := Scan.make [91, 49, 93], tok := .ch 91 }) + 41 ≤ fuelFor 4 := by decide
+
+/-! ## 4. Row iterator protocol -/
+
+theorem rowsStart_def (bs : List UInt8) : rowsStart bs =
+    match lexRead (fuelFor bs.length) (Scan.make bs) with
+    | .ok p => gridHeader (fuelFor bs.length) 0 p
+    | .err => .err | .panic => .panic | .diverge => .diverge | .depth => .depth := rfl
+theorem nextN_zero (fuel cols r) : nextN fuel cols 0 r = rowNext fuel 0 r cols := rfl
+theorem nextN_succ (fuel cols k r) : nextN fuel cols (k + 1) r =
+    match rowNext fuel 0 r cols with
+    | .ok (some _, r1) => nextN fuel cols k r1
+    | .ok (Option.none, r1) => .ok (Option.none, r1)
+    | .err => .err | .panic => .panic | .diverge => .diverge | .depth => .depth := rfl
+
+/-- one call of `next()` in any state whose measure the fuel covers -/
+theorem rowNext_total {fuel d : Nat} {r : RowState} {cols : List (List Char)} (h : 8 * r.p.M + 43 ≤ fuel) :
+    rowNext fuel d r cols ≠ .diverge := (rowNext_spec fuel d r cols).ne_diverge h
+
+/-- **C03 (lazy row iterator), in full.** -/
+theorem C03_rows_holds : C03_rows := by
+  intro bs
+  have hs := rowsStart_spec bs
+  refine ⟨hs.ne_panic, hs.ne_diverge (Nat.lt_succ_self 0), hs.ne_depth, ?_⟩
+  intro hdr r0 h0 cols
+  have hK : r0.K + 1 ≤ bs.length := hs.post h0
+  have hn := fun k => nextN_spec bs.length cols k r0 (by omega)
+  refine ⟨fun k => ⟨(hn k).ne_panic, (hn k).ne_diverge (Nat.lt_succ_self 0), (hn k).ne_depth⟩, ?_⟩
+  intro k hk row r h
+  have := (hn k).post h
+  simp only [Option.isSome_some, if_true] at this
+  omega
+
+/-- the hypothesis of `C03_rows` is satisfiable: a two-row grid starts an iterator … -/
+example : (rowsStart (("ver:\"3.0\"\na,b\n1,2\n3,4\n").toUTF8.toList)).isOk = true := by decide +kernel
+
+/-! ## Nesting depth -/
 
 /-- Nesting is bounded: whatever the tokens, a value nested deeper than `maxNestingDepth` is an
 error, not a deeper recursion (this is what keeps the native stack bounded). -/
